@@ -55,7 +55,19 @@ def emitOp : List String → Option String
     | some headers, some cookies =>
       let m : Msg := { http10 := v10 == "1", code := code, headers := headers, cookies := cookies }
       let st := stripCrlf (statusLine m.http10 m.code)
-      if mode == "send" then
+      if mode == "file" then
+        -- Http::serveFile: always 200; the Content-Type is the one guessed from the file name (.bin), also over a handler-set one
+        let ct : List Nat × List Nat := (bytes "Content-Type", bytes "application/octet-stream")
+        let hs := if m.headers.any (fun h => h.1 == bytes "Content-Type") then m.headers.map (fun h => if h.1 == bytes "Content-Type" then ct else h) else m.headers ++ [ct]
+        let m2 : Msg := { m with code := 200, headers := hs }
+        let body := chunks.headD []
+        let r := sendFixed max m2 body
+        match r.result with
+        | .rejected => pure "nohead raw=- send=rej:Response exceeded buffer size size=0 herr=-"
+        | .ok _ =>
+          let lines := (m2.headers.map headerLine ++ m2.cookies.map cookieLine ++ [headerLine (bytes "Content-Length", Num.natToDec body.length)]).map stripCrlf
+          pure (canonOut (stripCrlf (statusLine m2.http10 200)) lines body r.wire.length ++ s!" send=ok:{body.length} size=0 herr=-")
+      else if mode == "send" then
         let body := chunks.headD []
         let r := sendFixed max m body
         match r.result with
